@@ -137,3 +137,32 @@ pub proof fn canary_result_within_own_fdefs(env: Env, f: PV, r: Set<Name>)
     requires set_is_closure(env, f, r)
     ensures r.subset_of(sbucket(env.fdefs, f))
 { }
+
+/// star_targets(f): what each `from M import *` (in source order) and then each pytest_plugins entry of f resolves to
+/// (None: explicit import, or the module does not resolve)
+pub open spec fn star_targets(env: Env, f: PV) -> Seq<Option<PV>> {
+    Seq::new(imps(env, f).len(), |i: int| if imps(env, f)[i].star { imp_target(env, f, i) } else { None::<PV> })
+    + Seq::new(plugs(env, f).len(), |j: int| plug_target(env, f, j))
+}
+//@tags C14
+/// the edge relation used by the closure is exactly membership in star_targets
+pub proof fn lemma_C14_edge_is_star_target(env: Env, f: PV, h: PV)
+    ensures edge(env, f, h) == star_targets(env, f).contains(Some(h))
+{
+    reveal(edge);
+    let st = star_targets(env, f);
+    let n1 = imps(env, f).len() as int;
+    if edge(env, f, h) {
+        if exists|i: int| #[trigger] star_at(env, f, i, h) {
+            let i = choose|i: int| #[trigger] star_at(env, f, i, h);
+            assert(st[i] == Some(h));
+        } else {
+            let j = choose|j: int| #[trigger] plug_at(env, f, j, h);
+            assert(st[n1 + j] == Some(h));
+        }
+    }
+    if st.contains(Some(h)) {
+        let k = choose|k: int| 0 <= k < st.len() && st[k] == Some(h);
+        if k < n1 { assert(star_at(env, f, k, h)); } else { assert(plug_at(env, f, k - n1, h)); }
+    }
+}
